@@ -99,6 +99,7 @@ package component_definition
 
 //@ func (*Meta).ID
 //@ pure
+//@ requires [meta-built] m != nil && m.Base != nil
 //@ assigns nothing
 
 // filter: same contract as fas.Filter (sound, order-preserving, complete), ghost witnesses FilterSrc / FilterPos.
@@ -135,7 +136,7 @@ package component_definition
 //@ func (*Meta).dependOn
 //@ terminates
 //@ property C03
-//@ requires [metas-built] MetaOK(m) && dependent != nil
+//@ requires [metas-built] MetaOK(m) && dependent != nil && dependent.Base != nil
 //@ assigns m.Dependent, m.dependentSet.Dom, m.dependentSet.Val
 //@ ensures [dependents-grow] len(m.Dependent) >= len(old(m.Dependent)) && forall(i, int, implies(0 <= i && i < len(old(m.Dependent)), m.Dependent[i] == oldat(old(m.Dependent), i)))
 //@ ensures [recorded] m.dependentSet.Dom[dependent.ID()] && implies(!old(m.dependentSet.Dom[dependent.ID()]), len(m.Dependent) == len(old(m.Dependent)) + 1 && m.Dependent[len(m.Dependent) - 1] == dependent)
